@@ -36,4 +36,11 @@ CHECKS.update({
         "technique": "symbolic execution (CrossHair + z3) of the real token-range edit kernel over symbolic token positions and masks; real pipeline on layout templates with symbolic data",
     },
 })
+CHECKS.update({
+    "C04": {
+        "text": "The real pytest_addoption / pytest_configure / snapshot_check / pytest_sessionfinish run in-process under CrossHair with the flag-membership bits (CLI or INLINE_SNAPSHOT_DEFAULT_FLAGS), terminal-or-not, the 4 review answers, the CI variable index, PYCHARM_HOSTED, the xdist setting and xfail as symbolic variables; an independent 30-line model of docs/pytest.md + configuration.md computes the approved set (or usage error / inactive) and the solver confirms on every path that the files written and the storage directory are exactly what applying the approved categories gives - and nothing at all when nothing is approved.",
+        "note": "The whole product of the listed dimensions is covered (split into 77 conditions only for parallelism). The test program (one pending change per category + one outsourced external + one persisted unreferenced external, two files) is concrete. rich Console / Confirm.ask are scripted stubs; pytest's own option parser is replaced by argparse for the shortcut case. One defect found here was repaired (fix: commit 613a43d).",
+        "technique": "symbolic execution (CrossHair + z3) of the real plugin hooks over symbolic flag/environment bits against an executable model of the documented gate",
+    },
+})
 NOT_APPLICABLE = {}
